@@ -55,6 +55,10 @@ CHECKS = {
                 text="MCBinaryColumns.tla models collect_type_info and the per-instance value lookup with the real database as a constant; TLC checks AlwaysSucceeds / OwnValues / ColumnsExact / ExplicitWins for every subset assignment, sibling order, property-map and alias-set iteration order (and re-finds both repaired defects under the pre-fix rules). Every population (initial state) is built as a real DOM, written and read by rbx_binary, also instance by instance, and judged by BinaryFormat.tla (own values, defaults for lacking properties, success iff each instance succeeds alone).",
                 note="Exhaustive for the listed classes/spellings and 2-3 instances; other classes are reached by C01's random generators. The Font enum -> Font face table is uninterpreted.",
                 technique="TLA+ state machine of the writer's column logic (TLC) + exhaustive population replay + trace validation"),
+    "C13": dict(level="fault_enumeration", ref="§4 C13, §2.7",
+                text="IoFaults.tla models a byte source with short reads and Interrupted errors and is model-checked for schedule independence and truncation detection; every maximal schedule TLC prints is replayed (cycled) over valid binary (3 compressions), XML and attribute inputs on the real decoders, whose result must equal the whole-buffer result. Truncation at every offset must be an error, a sink failing at every output offset must surface as an error, byte/u32-field mutations at every offset, nesting depths up to 10^5 and seeded random bytes must end in ok/err - never panic, abort or hang. Outcome classes are judged by FaultTrace.tla.",
+                note="Cases run in a child process under a 2 GiB address-space limit; aborts/hangs are attributed to the case announced last. Random bytes are explored, not exhausted; no memory-safety claim. One recorded finding (allocations sized by unchecked length fields).",
+                technique="TLA+ fault/schedule model (IoFaults.tla, TLC) + exhaustive fault enumeration on the real decoders judged by FaultTrace.tla"),
     "C14": dict(level="model_checking", ref="§4 C14, §2.7",
                 text="AttrWire.tla transcribes docs/attributes.md (its worked examples are ASSUMEs); TLC decodes every blob Attributes::to_writer produced for generated maps and requires the decoded entries to be the map (String as BinaryString, rotations snapped like CFrames), the reader's result to equal it, and empty map <-> zero bytes. Blobs from an independent encoder written from the document are first held to AttrWire, then must decode to the described values with the real reader. The same predicate judges the Attributes property inside binary and XML files.",
                 note="Values sampled; the envelope slot of colour keypoints is written as zero by the foreign encoder.",
